@@ -158,6 +158,16 @@ FEATURES = [
              '<dtml-var x size=n>]',
      [lambda: dict(x='ab cd efgh', n=3), lambda: dict(x='abc', n=9),
       lambda: dict(x=T('ab c<d efgh'), n=6)]),
+    ('size-kinds', '[<dtml-var x size=5>|<dtml-var x size=5 etc="~">|'
+                   '<dtml-var x size=4 etc=""><dtml-var x size=2 upper>]',
+     # too long as bytes, too long as text, short text: what one kind of
+     # value needs (an encoded ellipsis) must not stay behind for the next
+     [lambda: dict(x=b'ab cd efgh ij'), lambda: dict(x='ab cd efgh ij'),
+      lambda: dict(x='abc')]),
+    ('null-kinds', '[<dtml-var x null="N" size=3>|<dtml-var x null="N" '
+                   'upper>|<dtml-var y missing="M" size=3>]',
+     [lambda: dict(x=b''), lambda: dict(x='', y=b'long bytes'),
+      lambda: dict(x='long text', y='long text')]),
     ('fmt-special', '[<dtml-var x fmt=dollars-and-cents>|<dtml-var x '
                     'fmt=whole-dollars>|<dtml-var x fmt=collection-length>|'
                     '<dtml-var x fmt="%05d">]',
